@@ -308,6 +308,28 @@ def check_sha(ck, prog):
                 okf = True
     mul8 = any(ex.show(n).replace(" ", "") in ("check->state.sha256.size*=8",)
                for b, i, e in fin.iter_elems() for (l, r, op, n) in ex.writes(e))
+    # padding: after the 0x80 byte, a second block is needed exactly when fewer than 8 bytes are left for the length,
+    # i.e. when (size mod 64) >= 56.  Finite-domain evaluation of the padding code for all 64 residues.
+    from sa import fd as _fd
+    pcalls = sorted({(ex.line(c), b.id) for b, i, e in fin.iter_elems() for c in ex.calls(e, into_refs=False)
+                     if c.get("fn") == "process"})
+    if len(pcalls) < 2:
+        raise AnalysisBroken("lzma_sha256_finish: expected a conditional and a final process() call")
+    early = {bid for (ln, bid) in pcalls[:-1]}
+    wrong = []
+    for p0 in range(64):
+        g = _fd.FD(prog, fin, [_fd.Key("var", "pos", domain=range(0, 66), label="pos")], cg=common.callgraph(prog))
+        g.value_hook = lambda n, p0=p0: (frozenset([p0]) if ex.show(n) == "check->state.sha256.size" else None)
+        g.run([g.top_state()])
+        extra = any(nd[0] in early for nd in g.nodes)
+        if extra != (p0 >= 56):
+            wrong.append(p0)
+    ck.ob("C14-SHA", "padding-blocks", not wrong, common.where(fin),
+          "lzma_sha256_finish: an extra padding block is processed exactly for message lengths = 56..63 (mod 64) "
+          "(all 64 residues evaluated)" if not wrong else
+          "lzma_sha256_finish(): for message length = %s (mod 64) the number of padding blocks differs from FIPS 180-4 "
+          "(a second block is needed iff length mod 64 >= 56): the digest is not SHA-256 for those lengths" % wrong[:6],
+          key="SHA:padding-blocks")
     ck.ob("C14-SHA", "length-field", okf and mul8, common.where(fin),
           "message length is converted to bits and stored big-endian in the last 8 bytes", key="SHA:length")
     ck.floor("C14-SHA", 9)
